@@ -25,11 +25,6 @@ def experiment_graph(records: list):
     return ExperimentRecord(episodes=list(records)).to_graph()
 
 
-class CompileRaised(Exception):
-    """Graph(...) itself raised. Not a verdict of any claimed property (they speak about graphs that compile): the run is counted as
-    skipped/compile_raised by the campaign, which turns a majority of skipped runs into an inconclusive (exit 2) result."""
-
-
 def build_graph(nodes, sup, raw, mode="mcs", prune=True, **kw):
     from rex.graph import Graph
 
@@ -41,6 +36,21 @@ def build_graph(nodes, sup, raw, mode="mcs", prune=True, **kw):
         raise CompileRaised(f"mode={mode} prune={prune}: " + "".join(traceback.format_exception(None, e, e.__traceback__))[-700:]) from e
 
 
+class CompileRaised(Exception):
+    """Graph(...) itself raised. Not a verdict of any claimed property (they speak about graphs that compile): the run is counted as
+    skipped/compile_raised by the campaign, which turns a majority of skipped runs into an inconclusive (exit 2) result."""
+
+
+def graph_init(G, *a, **kw):
+    """Graph.init, with its own assertion failures (e.g. "Buffer size for node `n` is 0" for a node nobody reads, D8) mapped to CompileRaised."""
+    try:
+        return G.init(*a, **kw)
+    except (AssertionError, KeyError) as e:
+        import traceback
+
+        raise CompileRaised("Graph.init raised: " + "".join(traceback.format_exception(None, e, e.__traceback__))[-500:]) from e
+
+
 _JIT_CACHE: dict = {}
 RECORD_UNAVAILABLE = {"n": 0}
 
@@ -49,7 +59,7 @@ def init_state(G, gs_init, eps_index: int, record=None, starting_step: int = 0, 
     """Compiled graph state for episode `eps_index` starting from the asynchronous initial rng/params/state/inputs."""
     import jax
 
-    cgs = G.init(jax.random.PRNGKey(0), starting_eps=eps_index, starting_step=starting_step)
+    cgs = graph_init(G, jax.random.PRNGKey(0), starting_eps=eps_index, starting_step=starting_step)
     cgs = cgs.replace(rng=gs_init.rng, params=gs_init.params, state=gs_init.state, inputs=inputs if inputs is not None else gs_init.inputs)
     if record:
         # A node that was pruned away completely has no output buffer and Graph.init_record(output=True) raises KeyError for it
